@@ -171,7 +171,7 @@ func (fr *Frame) evalCall(st *State, call *ast.CallExpr, nWant int) []*Term {
 		// external without contract
 		e.assumed[key] = true
 		fr.checkCallPre(st, fn, recv, args, call)
-		return fr.freshResults(st, sig, fn.Name())
+		return fr.freshResults(st, sig, "x$"+fn.Name())
 	}
 	// dynamic: interface method or function value
 	if selx, ok := call.Fun.(*ast.SelectorExpr); ok {
@@ -213,7 +213,7 @@ func (fr *Frame) evalCall(st *State, call *ast.CallExpr, nWant int) []*Term {
 				return fr.applyContract(st, fc, m, sig, recv, args, call)
 			}
 			e.assumed["(interface) "+typeName(sel.Recv())+"."+m.Name()] = true
-			return fr.freshResults(st, sig, m.Name())
+			return fr.freshResults(st, sig, "x$"+m.Name())
 		}
 	}
 	// function value
@@ -250,7 +250,11 @@ func (fr *Frame) freshResults(st *State, sig *types.Signature, hint string) []*T
 	var out []*Term
 	for i := 0; i < sig.Results().Len(); i++ {
 		t := sig.Results().At(i).Type()
-		v := Fresh("r$"+hint, fr.e.sortOf(t))
+		pre := "r$"
+		if strings.HasPrefix(hint, "x$") {
+			pre, hint = "rx$", hint[2:]
+		}
+		v := Fresh(pre+hint, fr.e.sortOf(t))
 		st.Assume(fr.e.typeFacts(v, t, st))
 		out = append(out, v)
 	}
@@ -816,6 +820,16 @@ func (fr *Frame) applyContract(st *State, fc *FuncContract, fn *types.Func, sig 
 		pkgPath = fr.fn.Pkg.PkgPath
 	}
 	short := shortKey(fc.Key)
+	// a callee that acquires its receiver's lock must not be called with that lock held (self-deadlock)
+	if fi := e.funcs[fc.Key]; fi != nil && recv != nil {
+		if fld := e.acquiresRecvLock(fi); fld != "" {
+			if n := namedOf(fi.Obj.Type().(*types.Signature).Recv().Type()); n != nil {
+				key := recv.String() + "#" + typeName(n) + "." + fld
+				_, held := st.locks[key]
+				e.oblige(fr, st, "lock-free", shortKey(typeName(n))+"."+fld, fr.site("lock", call), BoolLit(!held), call, nil, "call of "+short+", which acquires this lock, while it is already held (self-deadlock)")
+			}
+		}
+	}
 	b := cn.bind(recv, args, nil)
 	// caller-side call preconditions ("every call X(...) requires")
 	fr.checkCallPre(st, fn, recv, args, call)
@@ -1124,4 +1138,47 @@ func (e *Engine) weaklyProtected(li *LockInv, key string) bool {
 	}
 	_, ok := e.protectedKeys(strong)[key]
 	return !ok
+}
+
+// acquiresRecvLock: does fi's body call Lock/RLock on a sync mutex field of its own receiver? Returns the field name.
+func (e *Engine) acquiresRecvLock(fi *FuncInfo) string {
+	if fi.acqLock != nil {
+		return *fi.acqLock
+	}
+	res := ""
+	sig := fi.Obj.Type().(*types.Signature)
+	if r := sig.Recv(); r != nil && fi.Decl.Body != nil {
+		info := fi.Pkg.TypesInfo
+		ast.Inspect(fi.Decl.Body, func(n ast.Node) bool {
+			call, ok := n.(*ast.CallExpr)
+			if !ok {
+				return true
+			}
+			selx, ok := call.Fun.(*ast.SelectorExpr)
+			if !ok || (selx.Sel.Name != "Lock" && selx.Sel.Name != "RLock") {
+				return true
+			}
+			id, ok := selx.X.(*ast.Ident)
+			if !ok || info.ObjectOf(id) != r {
+				return true
+			}
+			sel := info.Selections[selx]
+			if sel == nil || len(sel.Index()) < 2 {
+				return true
+			}
+			if fn, ok := sel.Obj().(*types.Func); ok && fn.Pkg() != nil && fn.Pkg().Path() == "sync" {
+				// embedded mutex field name
+				t := sel.Recv()
+				if p, ok := t.Underlying().(*types.Pointer); ok {
+					t = p.Elem()
+				}
+				if stt, ok := t.Underlying().(*types.Struct); ok {
+					res = stt.Field(sel.Index()[0]).Name()
+				}
+			}
+			return true
+		})
+	}
+	fi.acqLock = &res
+	return res
 }
